@@ -76,6 +76,16 @@ def drive(ctx):
             ctx.emit("dur_op", {"o": "cmp"}, [x, as_td(y)])
             ctx.emit("dur_op", {"o": "sub"}, [x, y])
             ctx.emit("dur_op", {"o": "add"}, [x, as_td(y)])
+    # multiplication by floats that are NOT dyadic (0.1, 1.1, 1/3, ...): the exact value of the float decides, to the
+    # last microsecond and on ties
+    FX = ["0.1", "1.1", "0.3", "-0.7", "2.5e-07", "0.3333333333333333", "1e-06", "123456.789", "0.5", "1.0000000000000002", "-1e-09",
+          "0.05", "1.5", "3.0000001", "0.9999999999999999", "1e+03"]
+    fxs = [dur(us=5), dur(us=15), dur(us=25), dur(us=-5), dur(s=1), dur(us=1), dur(us=3), dur(d=1), dur(s=7, us=500000), dur(d=40000, us=1),
+           dur(h=23, mi=59, s=59, us=999999), dur(d=-3, us=7)] + operands(rnd)[-4:]
+    work = ctx.mine([(x, f) for x in fxs for f in FX])
+    for (x, f) in (rnd.sample(work, min(len(work), 14)) if q else work):
+        ctx.emit("dur_op", {"o": "mul_floatx", "f": f}, [x])
+        ctx.emit("dur_op", {"o": "rmul_floatx", "f": f}, [x])
     # duration (/) duration on operands that fit the limb bounds: sub-2000 s microsecond values and whole seconds
     sx = operands(rnd, small=True)
     sy = operands(rnd, small=True)
